@@ -1,5 +1,6 @@
 """C10 — determinism: ORDER (nondeterminism sources must reach order-insensitive consumers) + TYPES."""
 from ..core import op_place, op_local, callee_def
+from ..flow import origins
 from ..props import prop
 from . import common
 from .common import is_callee
@@ -135,6 +136,10 @@ def c10(ctx):
             n_consumers += 1
             if name in ORDER_INSENSITIVE:
                 rep.ob("C10.R1", key, True, "", fn.loc(t["line"]), how="order-insensitive consumer %s" % c["def"])
+            elif name in UNSTABLE_KEYED and _keys_of_one_map(F, fn, t):
+                rep.ob("C10.R1", key, True, "", fn.loc(t["line"]), how="sorted by the keys of the one map it came from: a strict total order, independent of the input order")
+            elif name in ("next", "for_each", "collect", "extend", "from_iter") and _collected_then_sorted(F, fn, bi, t):
+                rep.ob("C10.R1", key, True, "", fn.loc(t["line"]), how="the entries are collected into a vector that is sorted by their (pairwise distinct) keys before anything else reads it")
             elif name in COLLECTORS and any(tt.kind() == "adt" and tt.adt() in HASH_CONTAINERS for tt in dest_ty.walk()):
                 rep.ob("C10.R1", key, True, "", fn.loc(t["line"]), how="collected into another hash container")
             elif name in ("drop", "drop_in_place"):
@@ -217,7 +222,9 @@ def c10(ctx):
             elif name in UNSTABLE_KEYED:
                 n_sorts += 1
                 key = "sort::%s::%s" % (common.top_fn(F, fn).path, name)
-                if key in REVIEWED_UNSTABLE:
+                if _keys_of_one_map(F, fn, t) or _sort_of_collected_map_entries(F, fn, bi):
+                    rep.ob("C10.R3", key, True, "", fn.loc(t["line"]), how="automatic: the elements are the (key, value) entries of ONE hash map and the comparator compares the keys: no two elements compare equal")
+                elif key in REVIEWED_UNSTABLE:
                     rep.ob("C10.R3", key, True, "", fn.loc(t["line"]), how="reviewed: " + REVIEWED_UNSTABLE[key])
                 else:
                     rep.fail("C10.R3", key, "%s sorts with %s: elements with equal keys keep an unspecified (here: hash-dependent or input-dependent) order" % (fn.path, d), fn.loc(t["line"]))
@@ -228,5 +235,130 @@ def c10(ctx):
     else:
         rep.analysed(pp)
         sorts = [(bi, t) for bi, t in pp.calls() if t["callee"].get("name", "").startswith(("sort", "sorted"))]
-        ok = len(sorts) == 1 and sorts[0][1]["callee"]["name"] == "sort_by_key"
-        rep.ob("C10.R3", "lint-report-stable-sort", ok, "" if ok else "the lint report is not sorted with the stable slice::sort_by_key (ties would not keep pass order)", pp.loc(), how="slice::sort_by_key")
+        ok = len(sorts) == 1 and sorts[0][1]["callee"]["name"] in STABLE_SORTS and common.sort_key_fields(F, pp, sorts[0][1]) == {"line"}
+        rep.ob("C10.R3", "lint-report-stable-sort", ok, "" if ok else "the lint report is not sorted with a stable sort on the line alone (ties would not keep pass order)", pp.loc(), how="stable sort by line")
+
+
+
+def _hash_iter_sources(F, fn, operand, depth=0):
+    """hash-map iteration calls (iter / keys / values / into_iter / drain on a hash container) an operand derives from"""
+    from .c03 import kind_deep
+    out = set()
+    for d, p in kind_deep(fn, operand):
+        if d[0] == "call":
+            t = fn.term(d[1])
+            if t["callee"].get("name") in ("iter", "iter_mut", "into_iter", "keys", "values", "drain") and t["args"]:
+                pl = op_place(t["args"][0])
+                if pl is not None:
+                    ty = fn.local_ty(pl["l"])
+                    if any(tt.kind() == "adt" and tt.adt() in HASH_CONTAINERS for tt in ty.walk()):
+                        out.add(d[1])
+    return out
+
+
+def _keys_of_one_map(F, fn, sort_term):
+    """the sorted data are the entries of exactly one hash map (iter(): (key, value) pairs) and the comparator orders by field .0"""
+    from ..core import place_fields
+    from ..flow import rvalue_operands
+    srcs = _hash_iter_sources(F, fn, sort_term["args"][0])
+    if len(srcs) != 1 or fn.term(next(iter(srcs)))["callee"].get("name") not in ("iter", "iter_mut", "into_iter", "drain"):
+        return False
+    if len(sort_term["args"]) < 2:
+        return False
+    l = op_local(sort_term["args"][1])
+    cf = None
+    if l is not None:
+        ty = fn.local_ty(l).peel_refs()
+        if ty.kind() == "closure":
+            cf = F.fn(ty.d["closure"])
+    if cf is None:
+        return False
+    idx = set()
+    for body in F.with_closures(cf):
+        for bi, t in body.calls():
+            if t["callee"].get("name") in ("cmp", "partial_cmp"):
+                for a in t["args"][:2]:
+                    for d, p in origins(body, a):
+                        if d[0] == "param" and d[1] >= 2:
+                            idx.add(tuple(str(x) for x in p[:1]))
+            elif t["callee"].get("name") not in ("deref", "borrow", "as_ref", "clone"):
+                return False
+    return idx == {("0",)}
+
+
+def _collected_then_sorted(F, fn, bi, t):
+    """items drawn from ONE hash map in a loop / by collect end up in a Vec that is sorted by key before any other use"""
+    from ..flow import Labels
+    srcs = _hash_iter_sources(F, fn, t["args"][0])
+    if len(srcs) != 1:
+        return False
+    lab = Labels(F, fn, {(fn.path, t["dest"]["l"]): {"entry"}}, through_mut=True)
+    vecs = [i for i in range(len(fn.locals)) if fn.local_ty(i).kind() == "adt" and (fn.local_ty(i).adt() or "").endswith(("::Vec", "::SmallVec", "::VecDeque")) and "entry" in lab.lab.get((fn.path, i), set())]
+    if not vecs:
+        return False
+    # a vector that is only a moved copy of another labelled vector is the same vector later on
+    def moved_from(i):
+        ds = fn.defs().get(i, [])
+        return len(ds) == 1 and ds[0][0] == "stmt" and "use" in ds[0][3]["rv"] and op_place(ds[0][3]["rv"]["use"]) is not None and op_place(ds[0][3]["rv"]["use"])["l"] in vecs
+    aliases = [i for i in vecs if moved_from(i)]
+    vecs = [i for i in vecs if i not in aliases]
+    if not vecs:
+        return False
+    for v in vecs:
+        def refs_v(o, depth=0):
+            pl = op_place(o)
+            if pl is None or depth > 5:
+                return False
+            if pl["l"] == v or pl["l"] in aliases:
+                return True
+            for d in fn.defs().get(pl["l"], []):
+                if d[0] == "stmt" and "ref" in d[3]["rv"] and (d[3]["rv"]["ref"]["l"] == v or refs_v({"copy": d[3]["rv"]["ref"]}, depth + 1)):
+                    return True
+                if d[0] == "stmt" and "use" in d[3]["rv"] and refs_v(d[3]["rv"]["use"], depth + 1):
+                    return True
+                if d[0] == "call" and d[2]["callee"].get("name") in ("deref", "deref_mut", "as_mut_slice", "as_slice", "as_mut", "as_ref", "borrow_mut", "borrow") and d[2]["args"] and refs_v(d[2]["args"][0], depth + 1):
+                    return True
+            return False
+        sorts = [(b2, t2) for b2, t2 in fn.calls() if t2["callee"].get("name") in UNSTABLE_KEYED | STABLE_SORTS | UNSTABLE_WHOLE_ITEM and t2["args"] and refs_v(t2["args"][0])]
+        if not sorts:
+            return False
+        sb, stt = sorts[0]
+        # comparator on the keys (field .0)
+        l = op_local(stt["args"][1]) if len(stt["args"]) > 1 else None
+        cf = None
+        if l is not None:
+            ty = fn.local_ty(l).peel_refs()
+            if ty.kind() == "closure":
+                cf = F.fn(ty.d["closure"])
+        if cf is None:
+            return False
+        idx = set()
+        for body in F.with_closures(cf):
+            for b3, t3 in body.calls():
+                if t3["callee"].get("name") in ("cmp", "partial_cmp"):
+                    for a in t3["args"][:2]:
+                        for d, p in origins(body, a):
+                            if d[0] == "param" and d[1] >= 2:
+                                idx.add(tuple(str(x) for x in p[:1]))
+        if idx != {("0",)}:
+            return False
+        # every other reader of the vector comes after the sort
+        for b2, t2 in fn.calls():
+            if b2 == sb or not any(refs_v(a) for a in t2["args"]):
+                continue
+            if t2["callee"].get("name") in ("push", "push_back", "extend", "with_capacity", "new", "reserve", "drop", "deref", "deref_mut", "len", "capacity", "is_empty", "as_mut_slice"):
+                continue
+            if not fn.dominates(sb, b2):
+                return False
+        return sb
+    return False
+
+
+def _sort_of_collected_map_entries(F, fn, sort_bb):
+    """is this sort the one that orders a vector filled from ONE hash map's entries by their keys?"""
+    for bi, t in fn.calls():
+        if t["callee"].get("name") in ("next", "collect", "extend", "from_iter", "for_each") and t["args"] and _hash_iter_sources(F, fn, t["args"][0]):
+            r = _collected_then_sorted(F, fn, bi, t)
+            if r is not False and r == sort_bb:
+                return True
+    return False
